@@ -65,7 +65,13 @@ Fixpoint validate_doc (fuel : nat) (b : bytes) {struct fuel} : bool :=
         | 2 | 13 | 14 => skip_str l
         | 3 | 4 => embedded l
         | 5 => match read_i32 l with
-               | Some (n, r) => if (n <? 0)%Z then None else drop_n r (1 + Z.to_N n)
+               | Some (n, r) =>
+                   if (n <? 0)%Z then None
+                   else match r with
+                        | st :: _ => if (5 <? st) && (st <? 128) then None   (* subtypes birch refuses *)
+                                     else drop_n r (1 + Z.to_N n)
+                        | [] => None
+                        end
                | None => None
                end
         | 6 | 10 | 255 | 127 => Some l
